@@ -184,6 +184,12 @@ def _native_ns():
             self.__dict__.update(d)
             self.name = d.get("name", "")
             self.mandatory = d.get("mandatory")
+            self._d = d
+
+        def __eq__(self, other):      # the same table row, whether seen as the row object or as the real dict
+            return (other._d if isinstance(other, Entry) else other) == self._d
+
+        __hash__ = None
     ns["dict_entry"] = lambda c, v: Entry(avp.get_avp_dictionary_entry(c, v) or {})
     ns["avp_class_ok"] = lambda t: isinstance(t, type) and issubclass(t, avp.Avp)
     # real classes by name
@@ -623,9 +629,19 @@ def _rand_build(kind, rnd, ns, depth=0):
             for f, k in md.dynamic.items():
                 if rnd.random() < 0.5:
                     fields.setdefault(f, repr(k))
+    # class invariants of the form `not is_none(self.<field>)` are respected by the builder (the contracts assume them for
+    # every object of the class)
+    import re as _re
+    never_none = set()
+    for cn in [cls.__name__] + [b.__name__ for b in cls.__mro__[1:]]:
+        inv = REG.obj_invariants.get(cn)
+        if inv:
+            never_none |= set(_re.findall(r"not is_none\(self\.(\w+)\)", inv))
     for f, k in fields.items():
         if f.startswith("g_"):
             continue                  # ghost fields have no native counterpart
+        if f in never_none and k.startswith("Opt["):
+            k = k[4:-1]
         setattr(o, f, _rand_build(k, rnd, ns, depth + 1))
     return o
 
